@@ -114,6 +114,32 @@ func (is *indexSearch) getTSIDBySeriesKey(indexkey []byte) (uint64, error) {
 	return 0, io.EOF
 }
 
+// getLiveTSIDBySeriesKey returns the first series id recorded under the series key that is not in deleted.
+// A series that was dropped and written again has several ids under one key, all but the newest are deleted.
+func (is *indexSearch) getLiveTSIDBySeriesKey(indexkey []byte, deleted *uint64set.Set) (uint64, error) {
+	ts := &is.ts
+	kb := &is.kb
+	kb.B = append(kb.B[:0], nsPrefixKeyToTSID)
+	kb.B = append(kb.B, indexkey...)
+	kb.B = append(kb.B, kvSeparatorChar)
+	ts.Seek(kb.B)
+	for ts.NextItem() {
+		if !bytes.HasPrefix(ts.Item, kb.B) {
+			// Nothing found.
+			return 0, io.EOF
+		}
+		pid := encoding.UnmarshalUint64(ts.Item[len(kb.B):])
+		if deleted == nil || !deleted.Has(pid) {
+			return pid, nil
+		}
+	}
+	if err := ts.Error(); err != nil {
+		return 0, fmt.Errorf("error when searching TSID by seriesKey; searchPrefix %q: %w", kb.B, err)
+	}
+	// Nothing found
+	return 0, io.EOF
+}
+
 func (is *indexSearch) getAllTSID() (*uint64set.Set, error) {
 	tsidSet := &uint64set.Set{}
 	ts := &is.ts
